@@ -48,6 +48,7 @@ class SimFS:
         self.opens = 0
         self.stats = 0
         self.rlog = None  # optional storage.ReadLog: content reads per task
+        self.cwd: str | None = None   # simulated working directory (relative search paths "simrel*")
         self.links: dict[str, float] = {}   # paths that are symbolic links -> the link's own mtime
         self.lstats = 0
 
@@ -73,6 +74,7 @@ class SimFS:
         c.files = dict(self.files)
         c.dirs = set(self.dirs)
         c.links = dict(self.links)
+        c.cwd = self.cwd
         c.encoding = self.encoding
         return c
 
@@ -174,10 +176,15 @@ ACTIVE: SimFS | None = None
 _installed = False
 
 
+REL = "simrel"   # relative paths starting with this component resolve against the simulated cwd
+
+
 def _norm(p: pathlib.PurePath) -> str | None:
     s = str(p)
     if s == ROOT or s.startswith(ROOT + "/"):
         return os.path.normpath(s)
+    if s.startswith(REL) and ACTIVE is not None and ACTIVE.cwd:
+        return os.path.normpath(ACTIVE.cwd + "/" + s)
     return None
 
 
@@ -224,7 +231,18 @@ def install() -> None:
             p = p.decode("utf-8", "surrogateescape")
         if p == ROOT or p.startswith(ROOT + "/"):
             return os.path.normpath(p)
+        if p.startswith(REL) and ACTIVE.cwd:
+            return os.path.normpath(ACTIVE.cwd + "/" + p)
         return None
+
+    real_getcwd = os.getcwd
+
+    def os_getcwd():
+        if ACTIVE is not None and ACTIVE.cwd:
+            return ACTIVE.cwd
+        return real_getcwd()
+
+    os.getcwd = os_getcwd
 
     def os_stat(path, *args, **kwargs):
         s = _as_sim(path)
